@@ -262,8 +262,8 @@ def case_slice2d(draw, sign="forward", **kw):
                  draw(st.sampled_from([None, None, L, L + 1, m])),
                  draw(st.sampled_from(POS_STEPS))]
         else:
-            s = [draw(st.sampled_from([None, None, -1, L, L - 1, m - 1])),
-                 draw(st.sampled_from([None, None, -L - 1, -L - 2])),
+            s = [draw(st.sampled_from([None, None, -1, -1, L, L - 1, m - 1])),
+                 draw(st.sampled_from([None, None, -L - 1, -L - 2, 0])),
                  draw(st.sampled_from(NEG_STEPS))]
     return _with(arr, tup(a, {"t": "slice", "v": s}))
 
@@ -280,7 +280,8 @@ def case_dim1_general(draw, **kw):
     else:   # selections that keep at least one row
         s1 = draw(st.sampled_from([[None, None, -1], [None, None, -2], [-1, None, -1], [n - 1, None, -1],
                                    [-n - 1, None, None], [-n - 2, None, 1], [None, n + 1, None], [0, n + 2, 1],
-                                   [-n - 1, n + 1, 1], [n + 1, None, -1], [None, -n - 1, -1], [n, 0, -1]]))
+                                   [-n - 1, n + 1, 1], [n + 1, None, -1], [None, -n - 1, -1], [n, 0, -1],
+                                   [-1, 0, -1], [-1, -n - 1, -1], [-1, -n - 2, -2]]))
     kind = draw(st.sampled_from(["slice", "slice", "int", "cols"]))
     if kind == "slice":
         b = {"t": "slice", "v": draw(st.sampled_from([[None, None, None], [0, None, None], [None, m, None],
